@@ -289,7 +289,15 @@ func (c *Client) Resume() error {
 	// for example.
 	if c.PostResumeHook != nil {
 		err = c.PostResumeHook()
+		if err != nil {
+			return err
+		}
 	}
+
+	// As for a first connection, start the keepalive and the receiver go routines on the new connection
+	keepaliveQuit := make(chan struct{})
+	go keepalive(c.transport, c.config.KeepaliveInterval, keepaliveQuit)
+	go c.recv(keepaliveQuit)
 	return err
 }
 
